@@ -32,7 +32,7 @@ theorem parseFrags_rt (efuel : Nat) (l : BLine) (hw : ∀ f ∈ l, WFFrag f) (hf
       have hwe : WF e := hw (.interp e) (by simp)
       have hfe : 4 * e.size + 3 ≤ efuel := hfuel (.interp e) (by simp)
       have he := roundtrip_core e hwe 3 (level_le3 e) (Nat.le_refl _) efuel
-        (Tk.other "InterpolationEnd" :: (printLine xs ++ Tk.other "Eol" :: rest)) hfe (stop_cons 3 _ _ (by simp [blocks]))
+        (Tk.other "InterpolationEnd" :: (printLine xs ++ Tk.other "Eol" :: rest)) hfe (stopE_cons 3 _ _ _ (by simp [blocksE]))
         (after_cons _ _ _ (by simp) (by simp))
       simp only [parseAt] at he
       simp only [printLine, printFrag, tInterpolationStart, tInterpolationEnd, List.cons_append, List.nil_append, List.append_assoc,
@@ -129,7 +129,7 @@ theorem parseAssignment_rt (fuel : Nat) (a : Assignment) (hw : WF a.value) (hf :
     parseAssignment fuel (printAssignment a ++ rest) = some (a, rest) := by
   obtain ⟨exported, name, value⟩ := a
   have he := roundtrip_core value hw 3 (level_le3 value) (Nat.le_refl _) fuel (Tk.other "Eol" :: rest) hf
-    (stop_cons 3 _ _ (by simp [blocks])) (after_cons _ _ _ (by simp) (by simp))
+    (stopE_cons 3 _ _ _ (by simp [blocksE])) (after_cons _ _ _ (by simp) (by simp))
   simp only [parseAt] at he
   cases exported with
   | true =>
